@@ -2,7 +2,9 @@ package main
 
 import (
 	"encoding/json"
+
 	"fmt"
+	"golang.org/x/tools/go/ssa"
 	"os"
 	"runtime/debug"
 	"sort"
@@ -21,6 +23,8 @@ type propSpec struct {
 }
 
 var props = map[string]*propSpec{}
+
+var debugCmds = map[string]func(*Program){}
 
 func register(id string, s *propSpec) { props[id] = s }
 
@@ -110,6 +114,15 @@ func main() {
 		}
 		os.Exit(runCheck(id, tier))
 	default:
+		if f, ok := debugCmds[os.Args[1]]; ok {
+			prog, err := LoadProgram("linux", "amd64", false)
+			if err != nil {
+				fmt.Fprintln(os.Stderr, err)
+				os.Exit(2)
+			}
+			f(prog)
+			return
+		}
 		usage()
 	}
 }
@@ -177,4 +190,36 @@ func (r *Report) dedupe() {
 		}
 	}
 	r.Unresolved = u
+}
+
+func init() {
+	debugCmds["effects"] = func(prog *Program) {
+		dm := prog.DirectiveMap()
+		var roots []*ssa.Function
+		for _, d := range dm.ByName {
+			if d.InModule && d.Action != nil {
+				roots = append(roots, d.Action)
+			}
+		}
+		for _, n := range []string{"Start", "(*Instance).Restart", "ValidateAndExecuteDirectives", "startWithListenerFds"} {
+			if f := prog.Func("", n); f != nil {
+				roots = append(roots, f)
+			}
+		}
+		fns := setupReach(prog, roots)
+		effs := collectEffects(prog, fns)
+		keys := map[string]int{}
+		for _, e := range effs {
+			keys[effectKey(e)+"  @"+prog.Pos(e.In.Pos())]++
+		}
+		var ks []string
+		for k := range keys {
+			ks = append(ks, k)
+		}
+		sort.Strings(ks)
+		for _, k := range ks {
+			fmt.Println(k)
+		}
+		fmt.Println(len(fns), "functions;", len(effs), "effects")
+	}
 }
